@@ -82,3 +82,8 @@ var _ = pr.AutoF
 //@   props C17 C16
 //@   nopanic
 //@   pure
+
+// the same accessor through any of the box interfaces of this package
+//@ func iface (boxes.*).Box
+//@   pure
+//@   ensures result != nil
